@@ -2,6 +2,19 @@
 PY = "/venv/bin/python"
 
 REGISTRY = {
+    "C19": {
+        "modules": ["ext_hal", "ext_time", "control"],
+        "level": "proof",
+        "level_text": "Every method of Toggle, Toggle._SteadyDebounce, ButtonDebouncer, PeriodicFilter and SimpleWatchdog (constructors included) "
+                      "is verified against contracts whose postconditions are the clauses of the property, with object invariants and ghost "
+                      "'time of last accepted event' fields carrying the once-per-period claims over arbitrary sample histories.",
+        "level_note": "Assumed: clocks are monotone reals (floats as reals), button reads are arbitrary Booleans, debounce/filter periods are >= 0, "
+                      "the stored joystickget callable is the bound _SteadyDebounce.get created in Toggle.__init__ (link verified there), "
+                      "logger.warning in simple_watchdog.py is the overrun warning event.",
+        "design_ref": "DESIGN.md section 5 C19",
+        "replay": [PY, "native/replay_c19.py"],
+        "standins": {"quick": {"bounded: real Toggle/ButtonDebouncer/PeriodicFilter/SimpleWatchdog on random scripted histories vs statement-level oracles": [PY, "native/replay_c19.py"]}},
+    },
     "C16": {
         "modules": ["ext_hal", "precise_delay"],
         "level": "proof",
